@@ -57,11 +57,9 @@ def _r6(ctx):
     counted at both.  Every write to element_count[...] adds, or creates the entry of an element seen for the first time."""
     from ..valueflow import Flow, show, simp
     pkg = package(ctx.tree)
-    fn = pkg.cls("Species").methods.get("_add_element_count")
-    if fn is None:
-        ctx.missing("R6", "Species._add_element_count", (SPECIES, 0), "method vanished")
-        return
-    ctx.saw(SPECIES, "Species._add_element_count")
+    from ..pymodel import species_count_method
+    mname, fn = species_count_method(pkg)
+    ctx.saw(SPECIES, f"Species.{mname}")
     fl = Flow(fn, SPECIES)
     n = 0
     for f in fl.facts:
